@@ -22,7 +22,7 @@ def sh(cmd, cwd=None, timeout=3600, env=None):
 
 def main():
     src, name = sys.argv[1], sys.argv[2]
-    checks, seeds, jobs = None, ["1"], 4
+    checks, seeds, jobs, merge = None, ["1"], 4, False
     a = sys.argv[3:]
     while a:
         if a[0] == "--checks":
@@ -31,9 +31,14 @@ def main():
             seeds = a[1].split(",")
         elif a[0] == "-j":
             jobs = int(a[1])
+        elif a[0] == "--merge":  # keep the results of an earlier run for checks not re-run now
+            merge = True
+            a = a[1:]
+            continue
         a = a[2:]
     meta = json.load(open(os.path.join(src, "meta.json")))
     triage = meta.get("triage")
+    earlier = (meta.get("verification") or {}).get("checks", {}) if merge else {}
     if checks is None:
         checks = ALL
     wt = "/tmp/bv-" + name
@@ -67,7 +72,7 @@ def main():
         os.remove(demo_dst)
         rc, out = sh("go build ./pkg/... && python3 /verif/tools/baseline.py %s" % wt, cwd=wt)
         ver["baseline_with_patch"] = "pass" if rc == 0 else "FAIL"
-        ver["checks"] = {}
+        ver["checks"] = dict(earlier)
 
         def one(cs):
             cid, sd = cs
